@@ -15,7 +15,8 @@ PROPS = {
     },
     "C02": {
         "spec_key": "c02",
-        "runs": [{"engine": "seq", "mode": "c02", "n_quick": 1500, "n_thorough": 1400000}],
+        "runs": [{"engine": "seq", "mode": "c02", "n_quick": 1500, "n_thorough": 1400000},
+                 {"engine": "grp", "mode": "", "n_quick": 800, "n_thorough": 200000}],
         "rule": "derive-then-edit histories; after every step every live frame is dumped cell by cell and all frames "
                 "other than the target of an in-place edit must be unchanged; non-trivial = at least one successful step on a frame with >= 2 rows",
         "assumptions": ["Select (documented to return the live column) and callbacks returning their argument are excluded, as in the property"],
@@ -24,7 +25,15 @@ PROPS = {
     "C20": {
         "spec_key": "c20",
         "runs": [{"engine": "seq", "mode": "c20", "n_quick": 1500, "n_thorough": 1400000},
-                 {"engine": "plot", "mode": "", "n_quick": 150, "n_thorough": 3000, "timeout": 600}],
+                 {"engine": "plot", "mode": "", "n_quick": 150, "n_thorough": 3000, "timeout": 600},
+                 # every other public entry point under recover(): a panic or a call that does not return is a violation by itself
+                 {"engine": "sqlw", "mode": "", "n_quick": 600, "n_thorough": 100000},
+                 {"engine": "sqlr", "mode": "", "n_quick": 600, "n_thorough": 100000},
+                 {"engine": "csv", "mode": "imp", "n_quick": 1000, "n_thorough": 200000},
+                 {"engine": "csv", "mode": "rt", "n_quick": 600, "n_thorough": 100000},
+                 {"engine": "grp", "mode": "", "n_quick": 600, "n_thorough": 100000},
+                 {"engine": "agg", "mode": "", "n_quick": 600, "n_thorough": 100000},
+                 {"engine": "rsm", "mode": "", "n_quick": 400, "n_thorough": 50000}],
         "rule": "histories biased to invalid arguments (unknown names, boundary and extreme integers, unknown option strings, "
                 "mismatched operands, wrong cell types); every call under recover(); non-trivial = at least one successful step on a frame with >= 2 rows",
         "assumptions": ["scalar cells only; callbacks that themselves misbehave are outside the property"],
